@@ -84,6 +84,11 @@ CLAIMS = {
   text="Exploration: well-typed programs (accessor chains over ten node/value types with nullability tracking, First/Last/Length/Only/Combine/NodesWithTagPath, objects, variables, all six operators) are generated as ASTs, printed, evaluated by the engine on random family graphs and compared as normalised JSON with a reference interpreter written with ordinary loops over direct Go API calls; determinism of re-parsing and engine reuse; metamorphic relations (variable inlining, E | Length, Combine(E,E) | Length, First/Last length and partition at k in {0,1,n-1,n,n+1}); every ordered pair of 24 constants under all six operators against the documented comparison rule, negation and trichotomy (exhaustive). One finding class (C16-F1: First/Last of an empty list) is excluded and counted.",
   note="Trusted: the reference interpreter (about 150 lines) and the typed accessor table; numeric = [0-9]+(.[0-9]+)?; null and [] are the same empty result; clock-reading accessors are not generated.",
   design="6.16"),
+ "C18": dict(
+  technique="taint-tracking PBT (rapid): unique tokens carrying < > \" ' & in every value kind, searched for in unescaped form in every output; HTML tokenizer / well-nestedness oracle with a benign control",
+  text="Exploration: documents in which ~40 value kinds (all name parts, sex, event values, dates, places, notes at three levels, identifiers, marriage/divorce data, source titles and properties incl. nested ones, optionally pointers) carry a unique token are published in every visibility mode with random page-group masks, rendered as diff reports (show x sort) against an edited copy, and written by the HTML query formatter. Oracle: at every occurrence of a token id the bytes up to its closing marker contain no raw < or >, no bare &, no raw double quote inside attribute values and no raw single quote inside event handlers; every page tokenises and is well nested (hand-written tokenizer); the same document with benign values is the control that attributes structural problems to content.",
+  note="Trusted: internal/ref/html.go (tokenizer, void elements, '/>' self-closing, script/style raw text). Quotes in element content cannot change structure and are not judged. The HTML query formatter concatenates fragments, so only escaping is judged there.",
+  design="6.18"),
  "C20": dict(
   technique="model-based PBT (rapid): warnings oracle evaluated on generated facts (day numbers) vs Document.Warnings(), metamorphic record/child reordering, CLI line count",
   text="Exploration: family graphs with exact dates are generated so that each warning condition is met or not met, with the boundaries that whole days decide generated exactly (sibling gaps 0/1/2/3 days, child born the day before/of/after a parent's birth, later-group events the day before/of an earlier-group event) and margins only around the approximate thresholds (16 and 100 years, 9 months). The expected multiset of (kind, people, dates) is computed from the blueprint alone and must equal the typed projection of Document.Warnings() (name, context, people named in the message), also after reversing records and children; the built 'gedcom warnings' binary must print exactly one line per warning.",
